@@ -483,6 +483,8 @@ def ite(c, a, b):
     if isinstance(a, SBytes) and isinstance(b, SBytes):
         assert a.kind == b.kind
         return SBytes(a.kind, If(c, a.n, b.n), lambda i: If(c, a.at(i), b.at(i)))
+    if isinstance(a, tuple) and isinstance(b, tuple) and len(a) == len(b):
+        return tuple(ite(c, x, y) for x, y in zip(a, b))
     if isinstance(a, SStr) and isinstance(b, SStr):
         return SStr(If(c, a.t, b.t))
     if isinstance(a, Rec) and isinstance(b, Rec) and (issubclass(a.cls, b.cls) or issubclass(b.cls, a.cls)):
